@@ -777,6 +777,24 @@ fn deser_result_metadata(
     Ok((metadata, paging_state))
 }
 
+/// Verification hooks: thin pass-throughs to private items, no logic.
+#[cfg(feature = "scylla-verif")]
+#[doc(hidden)]
+pub mod verif_hooks {
+    use super::*;
+
+    pub fn result_metadata(
+        buf: &mut &[u8],
+        features: &ProtocolFeatures,
+    ) -> StdResult<(ResultMetadata<'static>, PagingStateResponse), ResultMetadataParseError> {
+        deser_result_metadata(buf, features)
+    }
+
+    pub fn column_type<'a>(buf: &mut &'a [u8]) -> StdResult<ColumnType<'a>, CqlTypeParseError> {
+        deser_type_borrowed(buf)
+    }
+}
+
 impl RawMetadataAndRawRows {
     /// Deserializes flags and paging state; the other part of result metadata
     /// as well as rows remain serialized.
